@@ -52,6 +52,7 @@ type Run struct {
 	MaxEnum   int
 	Reach     []string // vacuity witnesses: tags that must be reached on some path
 	Budget    time.Duration
+	BudgetIsViolation bool
 }
 
 // Property describes how one property is decided.
@@ -280,8 +281,10 @@ func nativeReplay(prop *Property, rf *replayFile, path string, replace map[strin
 	cmd := exec.Command("go", "test", "-tags", tags, "-vet=off", "-count=1", "-v", "-timeout", "120s", "-overlay", ovPath, "-run", "^TestVerifReplay$", "."+rel)
 	cmd.Dir = repoDir
 	cmd.Env = append(os.Environ(), "GOFLAGS=-mod=mod", "GOPROXY=off", "VERIF_REPLAY="+path, "VERIF_HARNESS="+nativeHarnessOf(rf))
-	out, _ := cmd.CombinedOutput()
-	s := string(out)
+	lw := &limitedWriter{max: 1 << 20}
+	cmd.Stdout, cmd.Stderr = lw, lw
+	cmd.Run()
+	s := lw.String()
 	if len(s) > 6000 {
 		s = s[:3000] + "\n...\n" + s[len(s)-3000:]
 	}
@@ -292,6 +295,8 @@ func nativeReplay(prop *Property, rf *replayFile, path string, replace map[strin
 		return strings.Contains(s, "panic:") || strings.Contains(s, "fatal error:"), s
 	case "deadlock":
 		return strings.Contains(s, "test timed out") || strings.Contains(s, "all goroutines are asleep"), s
+	case "budget":
+		return strings.Contains(s, "stack overflow") || strings.Contains(s, "test timed out") || strings.Contains(s, "goroutine stack exceeds"), s
 	case "leak":
 		return strings.Contains(s, "VERIF-ASSERT-FAILED"), s
 	}
@@ -672,6 +677,41 @@ func runProperty(prop *Property, tier, replayPath string, workers int, solver st
 	return 0
 }
 
+// limitedWriter keeps the first and the last max bytes of what is written
+// (a crashing replay can print hundreds of megabytes of stack trace).
+type limitedWriter struct {
+	max  int
+	head []byte
+	tail []byte
+	n    int
+}
+
+func (w *limitedWriter) Write(p []byte) (int, error) {
+	w.n += len(p)
+	if room := w.max - len(w.head); room > 0 {
+		k := len(p)
+		if k > room {
+			k = room
+		}
+		w.head = append(w.head, p[:k]...)
+		p2 := p[k:]
+		w.tail = append(w.tail, p2...)
+	} else {
+		w.tail = append(w.tail, p...)
+	}
+	if len(w.tail) > w.max {
+		w.tail = w.tail[len(w.tail)-w.max:]
+	}
+	return len(p), nil
+}
+
+func (w *limitedWriter) String() string {
+	if len(w.tail) == 0 {
+		return string(w.head)
+	}
+	return string(w.head) + "\n...\n" + string(w.tail)
+}
+
 func dirExists(p string) bool {
 	st, err := os.Stat(p)
 	return err == nil && st.IsDir()
@@ -714,6 +754,7 @@ func mkConfig(run Run, workers int, solver string, trace bool) interp.Config {
 		Harness: run.Harness, HarnessPkg: run.Pkg, Params: run.Params, Overrides: run.Overrides,
 		DelayBound: run.Delay, SchedLIFO: run.LIFO, Workers: workers, SolverBin: solver, Trace: trace,
 		MaxPaths: run.MaxPaths, MaxSteps: run.MaxSteps, MaxDepth: run.MaxDepth, MaxEnum: run.MaxEnum, Race: run.Race,
+		BudgetIsViolation: run.BudgetIsViolation,
 	}
 	if trace {
 		cfg.Workers = 1
